@@ -30,6 +30,12 @@ func satScale(x uint32) (int, bool) {
 }
 
 func satTrace(rng *rand.Rand, n, maxCalls int) (rec, error) {
+	return satTraceMode(rng, n, maxCalls, false)
+}
+
+// long = true: a piece whose total passes the size of a word (64 units) while every single delta stays within the format's
+// limit (every track gets an event at least every 3 units): it must be written, and written right
+func satTraceMode(rng *rand.Rand, n, maxCalls int, long bool) (rec, error) {
 	set, err := midix.NewTrackSetControllerFromTrackNum(n)
 	if err != nil {
 		return nil, err
@@ -72,6 +78,7 @@ func satTrace(rng *rand.Rand, n, maxCalls int) (rec, error) {
 			events = append(events, rec{"op": "meta", "mw": mw, "mtp": mtp, "mop": d2})
 		}
 	}
+	value := func(k int) float64 { return float64(k) * satUnit / 960 }
 	// lengths in units: mostly small, sometimes around the format limit (4), sometimes around the word size (64)
 	pick := func() int {
 		switch rng.Intn(6) {
@@ -84,8 +91,33 @@ func satTrace(rng *rand.Rand, n, maxCalls int) (rec, error) {
 		}
 		return 1 + rng.Intn(2)
 	}
-	value := func(k int) float64 { return float64(k) * satUnit / 960 }
 	calls := 1 + rng.Intn(maxCalls)
+	if long {
+		calls = 0
+		voices := n - 1
+		if voices < 1 {
+			voices = 1
+		}
+		for i := 0; i < 36+rng.Intn(10); i++ {
+			w.Tempo(60 + rng.Intn(180))
+			emit(rec{"op": "meta"})
+			if rng.Intn(4) == 0 {
+				w.Rest(value(1))
+				emit(rec{"op": "rest", "k": 1})
+				w.Tempo(60 + rng.Intn(180))
+				emit(rec{"op": "meta"})
+			}
+			k := 1 + rng.Intn(3)
+			keys := []uint8{}
+			for j := 0; j < voices; j++ {
+				keys = append(keys, uint8(60+j))
+			}
+			if err := w.Note(value(k), 64, keys...); err != nil {
+				return nil, err
+			}
+			emit(rec{"op": "note", "k": k, "n": voices})
+		}
+	}
 	for i := 0; i < calls; i++ {
 		switch rng.Intn(6) {
 		case 0:
@@ -163,7 +195,7 @@ func satMode(seed int64, tier, out string, n int) {
 	samples := []any{}
 	refused := 0
 	for i := 0; i < count; i++ {
-		r, err := satTrace(rng, n, maxCalls)
+		r, err := satTraceMode(rng, n, maxCalls, i%25 == 24 && n <= 3)
 		if err != nil {
 			fmt.Fprintln(os.Stderr, "sat trace:", err)
 			os.Exit(2)
